@@ -26,7 +26,10 @@ for d in sorted(os.listdir(sd)):
     if not os.path.exists(mp):
         continue
     m = json.load(open(mp))
-    rows.append(f"| {m['id']} | {m['property']} | {m['change']} | {m['needs_to_manifest']} | {'; '.join(m.get('detected_by', [])) or '—'} |")
+    det = '; '.join(m.get('detected_by', [])) or '—'
+    if m.get('rechecked_final_day'):
+        det += f" — final re-check: {m['rechecked_final_day']}"
+    rows.append(f"| {m['id']} | {m['property']} | {m['change']} | {m['needs_to_manifest']} | {det} |")
 s = block("seeded", "\n".join(rows), s)
 # repaired defects: the `fix:` commits of /repo (oldest first)
 import subprocess
